@@ -3,7 +3,7 @@
 Require Extraction.
 Require Import ExtrOcamlBasic.
 From Coq Require Import NArith ZArith List.
-From VT Require Import Gen.Constants Base.Outcome Model.Cache Model.BBox Model.Pipeline Model.Stream Model.FileIO Model.Recompress Model.Http Model.StaticPath Model.Json Model.VPL Model.MVT Model.Crash Model.TileId Model.PMDir Model.VTFormat Model.Csv Model.Chunk.
+From VT Require Import Gen.Constants Base.Outcome Model.Cache Model.BBox Model.Pipeline Model.Stream Model.FileIO Model.Recompress Model.Http Model.StaticPath Model.Json Model.VPL Model.MVT Model.Crash Model.TileId Model.PMDir Model.VTFormat Model.Csv Model.Chunk Proofs.VPLProofs Proofs.VPLRoundtrip.
 Extraction Blacklist String List Nat Int Char.
 Set Extraction KeepSingleton.
 Extraction "../ocaml/model.ml"
@@ -16,7 +16,7 @@ Extraction "../ocaml/model.ml"
   Constants.file_read_variant FileIO.read_range_prog
   Constants.tile_path_variant Constants.static_guard_variant Http.status StaticPath.served StaticPath.components StaticPath.names StaticPath.request_url
   Constants.json_hex_variant Json.quote Json.parse_string Json.parse_json Json.stringify
-  Constants.vpl_empty_variant VPL.parse_vpl
+  Constants.vpl_empty_variant VPL.parse_vpl VPLRoundtrip.render_pipe
   Constants.mvt_table_variant Constants.zigzag_variant MVT.decode_tile MVT.encode_tile MVT.merge_tiles MVT.decode_tags
   MVT.write_varint MVT.read_varint MVT.zz_enc MVT.zz_dec
   Recompress.recompressor Recompress.optimize Recompress.compress Recompress.framed Recompress.process
